@@ -350,6 +350,7 @@ package fsm
 //@   pure
 // a transaction passes CheckTx only with a sender that the message's rules authorize
 //@ func (*StateMachine).CheckTx
+//@   modifies *
 // (CheckTx only ever adds to the batch verifier: ASSUMED - several of its callees are outside the frame inference)
 //@   assumed[batchgrows] batchVerifier != nil ==> batchVerifier.count >= old(batchVerifier.count)
 //@   ensures[authorized] isnil(err) && !result.plugin ==> !isnil(result.sender) && authorizedFor(result.msg, addrOf(result.sender))
@@ -570,6 +571,7 @@ package fsm
 // deleting a validator record also removes its unstaking / paused markers, so no marker ever refers to
 // a validator that no longer exists (end-block processing of such a marker would fail every block)
 //@ func (*StateMachine).DeleteValidator
+//@   modifies *
 //@   ensures[unstakemarker] result == nil && validator.UnstakingHeight != 0 ==> !kvHas(unstakeKey(validator.UnstakingHeight, bytes(validator.Address)))
 //@   ensures[pausedmarker] result == nil && validator.MaxPausedHeight != 0 ==> !kvHas(pausedKey(validator.MaxPausedHeight, bytes(validator.Address)))
 // (the record is removed through the raw store Delete: that this zeroes the validator's abstract stake is ASSUMED)
@@ -608,6 +610,7 @@ package fsm
 //@ func (*StateMachine).SlashDoubleSigners
 //@   requires[params] wfValParams(params)
 //@ func (*StateMachine).SlashAndResetNonSigners
+//@   modifies *
 //@   requires[params] wfValParams(params)
 // (its iteration callback runs through the store iterator interface, outside the generator's frame inference;
 // that it leaves the parameter object alone is ASSUMED)
